@@ -385,6 +385,32 @@ def run_resume(ctx, idx0):
                         ctx.violation('kaczmarz', kind + ';projection;loop=inner', 'final-iterate-not-last-callback')
                 except Exception as e:
                     ctx.violation('kaczmarz', kind + ';projection;loop=inner', 'raises:' + type(e).__name__, message=str(e)[:200])
+                # spellings of the callback option: whatever string is given, the callback either sees the documented number of
+                # iterates (one per iteration for 'outer', one per partial update for 'inner') or the call is refused - never
+                # an unobserved run
+                for spelling, per_iter in (('outer', 1), ('inner', 2), ('OUTER', 1), ('Inner', 2), ('both', None), ('', None)):
+                    ctx.ev('exactly-once')
+                    ctx.case('kaczmarz;callback_loop', spelling)
+                    r = trace.Recorder()
+                    xk = x0.copy()
+                    nk = max(niter, 1)
+                    try:
+                        S.kaczmarz([A, 0.5 * A], xk, [b, 0.5 * b], nk, omega=om, callback=r, callback_loop=spelling)
+                    except ValueError:
+                        if per_iter is not None and spelling in ('outer', 'inner'):
+                            ctx.violation('kaczmarz', kind + ';callback_loop=documented', 'raises:ValueError')
+                        elif not rel_close(xk, x0, 0):
+                            ctx.violation('kaczmarz', kind + ';callback_loop=unknown', 'refused-after-iterating')
+                        continue
+                    except Exception as e:
+                        ctx.violation('kaczmarz', kind + ';callback_loop=' + ('unknown' if per_iter is None else 'case-variant'), 'raises:' + type(e).__name__, message=str(e)[:200])
+                        continue
+                    if per_iter is None:
+                        if len(r) not in (nk, 2 * nk):
+                            ctx.violation('kaczmarz', kind + ';callback_loop=unknown', 'callback-count', got=len(r), niter=nk, spelling=spelling)
+                    elif len(r) != per_iter * nk:
+                        ctx.violation('kaczmarz', kind + ';callback_loop=' + ('documented' if spelling in ('outer', 'inner') else 'case-variant'), 'callback-count',
+                                      got=len(r), want=per_iter * nk, spelling=spelling)
                 # Douglas-Rachford: two operators with *equal* ranges are the same algorithm as one BroadcastOperator with a
                 # SeparableSum (equal dual steps) - iterate by iterate
                 if kind == 'matrix':
